@@ -83,6 +83,9 @@ pub struct BhCase {
     /// work when it first polls the call future
     #[serde(default)]
     pub starve_mask: u64,
+    /// every service is used through one single handle (nothing else refers to the bulkhead)
+    #[serde(default)]
+    pub single_handle: bool,
 }
 
 #[derive(Clone, Debug, Serialize, Deserialize)]
@@ -115,6 +118,7 @@ fn stress_strategy(tier: Tier) -> BoxedStrategy<BhCase> {
             nest_mask: 0,
             listeners: false,
             starve_mask: 0,
+            single_handle: false,
             stress: Some(Stress {
                 max,
                 threads,
@@ -294,9 +298,10 @@ fn case_strategy(tier: Tier) -> BoxedStrategy<BhCase> {
             prop_oneof![5 => Just(0u64), 1 => (0u64..64).prop_map(|k| 1 << k), 1 => any::<u64>().prop_map(|m| m & 0xff)],
             prop::bool::weighted(0.3),
             prop_oneof![4 => Just(0u64), 1 => (0u64..64).prop_map(|k| 1 << k), 1 => any::<u64>()],
+            prop::bool::weighted(0.15),
         ),
     )
-        .prop_map(|(max, wait, clones, callers, order, hold, (setter_order, decoy, nest_mask, listeners, starve_mask))| BhCase {
+        .prop_map(|(max, wait, clones, callers, order, hold, (setter_order, decoy, nest_mask, listeners, starve_mask, single_handle))| BhCase {
             max,
             wait,
             clones,
@@ -309,6 +314,7 @@ fn case_strategy(tier: Tier) -> BoxedStrategy<BhCase> {
             stress: None,
             listeners,
             starve_mask,
+            single_handle,
         })
         .boxed()
 }
@@ -532,8 +538,18 @@ async fn interp(case: &BhCase) -> Verdict {
     if case.nest_mask != 0 {
         *outer1.lock().unwrap() = Some(Outer::new(base1.clone()));
     }
-    let mut clones1: Vec<_> = (0..case.clones).map(|_| base1.clone()).collect();
-    let mut clones2: Vec<_> = (0..case.clones).map(|_| base2.clone()).collect();
+    // single_handle: each service exists as exactly one handle (no clone kept anywhere), on which
+    // every call of the history is made
+    let single = case.single_handle && case.nest_mask == 0;
+    let nclones: u8 = if single { 1 } else { case.clones };
+    let (mut clones1, mut clones2): (Vec<_>, Vec<_>) = if single {
+        (vec![base1], vec![base2])
+    } else {
+        (
+            (0..case.clones).map(|_| base1.clone()).collect(),
+            (0..case.clones).map(|_| base2.clone()).collect(),
+        )
+    };
 
     let wait_ms: Option<u64> = match case.wait {
         Wait::None | Wait::Forever => None,
@@ -597,7 +613,7 @@ async fn interp(case: &BhCase) -> Verdict {
         // handles polled for readiness ahead of their call
         for c in case.callers.iter() {
             if c.ready_early > 0 && c.at > 0 && c.at.saturating_sub(c.ready_early) == t && c.at != t {
-                let k = (c.clone % case.clones) as usize;
+                let k = (c.clone % nclones) as usize;
                 let s = if c.svc2 { &mut clones2[k] } else { &mut clones1[k] };
                 let _ = futures::future::poll_fn(|cx| s.poll_ready(cx)).await;
                 saw_ready_early = true;
@@ -612,7 +628,7 @@ async fn interp(case: &BhCase) -> Verdict {
                     key: 0,
                     tag: 0xB000 + i as u64,
                 };
-                let k = (c.clone % case.clones) as usize;
+                let k = (c.clone % nclones) as usize;
                 let s = if c.svc2 { &mut clones2[k] } else { &mut clones1[k] };
                 let _ = futures::future::poll_fn(|cx| s.poll_ready(cx)).await;
                 let swap = c.swap_idiom;
@@ -911,7 +927,7 @@ async fn interp(case: &BhCase) -> Verdict {
                 key: 0,
                 tag: id as u64,
             };
-            let s = &mut clones1[j % case.clones as usize];
+            let s = &mut clones1[j % nclones as usize];
             let _ = futures::future::poll_fn(|cx| s.poll_ready(cx)).await;
             let fut = s.call(req);
             probe_tasks.push((id, sim.spawn_call(fut, map_outcome)));
@@ -996,6 +1012,9 @@ async fn interp(case: &BhCase) -> Verdict {
     }
     if case.listeners {
         v.classes.push("event_listeners_registered");
+    }
+    if single {
+        v.classes.push("one_handle_per_service_no_clone_alive");
     }
     if case.starve_mask & ((1u64 << case.callers.len().min(63)) - 1) != 0 {
         v.classes.push("first_poll_with_exhausted_cooperative_budget");
